@@ -606,3 +606,70 @@ def slash_defs(rng, draft="2020", spell=None, where=None):
     meta = {"kind": "slashdefs", "expect": None if dangling else expect, "expect_outcome": "resolve-error" if dangling else "resolved",
             "nrefs": len(expect_t), "nptr": len(expect_t), "where": where}
     return args, meta
+
+
+# (all but the last are spelled the way net/url writes them back, so the Loader — keyed by URL.String() — finds the documents; the last
+# is re-spelled by net/url (%41 -> A): there Resolve ends with a load error, which is a return too)
+USERINFO = ["user@", "reader@", "u:p@", "a.b:@", "u;v=1@", "u:p%3Aq@", "x%40y:p@", "u$&+,;=:-._~@", "user@", "u:p@", "%41lice:pw@"]
+
+
+def userinfo_cycle(rng):
+    """Loader documents that name each other by ABSOLUTE URIs with a userinfo part (http://user@host/…, http://u:p@host/…) and form a
+    reference cycle (a ring A -> B [-> C] -> A, or a rho A -> B -> C -> B); every hop passes through an instance-descending keyword.
+    The root is the first document itself (its URI given by BaseURI, or by an absolute $id with userinfo) or a separate document
+    that refers to it. Back references are mostly absolute (userinfo spelled out again in every $ref), sometimes relative.
+    The Lean model of net/url does not parse userinfo (Model/Uri.lean: 'outside the modelled subset'), so the op is `validate-go`
+    (never sent to the model) and only C10 uses it: Resolve must RETURN. The Loader gives up after `maxLoads` requests — far more than
+    the universe has documents —, which turns a load/resolve recursion that would never end into an `overrun` reply.
+    Returns (args, meta)."""
+    ui = rng.choice(USERINFO)
+    host = rng.choice(["s.test", "s.test:8080", "schemas.example.com", "[::1]:81"])
+    scheme = rng.choice(["http", "https"])
+    k = rng.choice([2, 2, 3])
+    pre = "%s://%s%s/ui/" % (scheme, ui, host)
+    uris = [pre + "d%d.json" % i for i in range(k)]
+    shape = rng.choice(["ring", "ring", "rho"]) if k == 3 else "ring"
+    nxt = {i: (i + 1) % k for i in range(k)}
+    if shape == "rho":
+        nxt[k - 1] = 1
+    bodies = []
+    for i in range(k):
+        j = nxt[i]
+        r = rng.random()
+        if r < 0.75:
+            ref = uris[j]                                   # absolute, userinfo spelled again
+        elif r < 0.9:
+            ref = "d%d.json" % j                            # relative: inherits the base's userinfo
+        else:
+            ref = "//%s%s/ui/d%d.json" % (ui, host, j)      # network-path reference with userinfo
+        if rng.random() < 0.3:
+            ref += rng.choice(["#", "#/properties/m%d" % j])
+        link = Obj([("$ref", ref)])
+        body = []
+        if rng.random() < 0.3:
+            body.append(("$id", uris[i]))
+        props = Obj([("m%d" % i, Obj([("const", "doc%d" % i)]))])
+        via = rng.choice(["properties", "properties", "items", "additionalProperties"])
+        if via == "properties":
+            props.set("next", link)
+            body.append(("properties", props))
+        else:
+            body += [("properties", props), (via, link)]
+        bodies.append(Obj(body))
+    docs = [[uris[i], bodies[i]] for i in range(k)]
+    r = rng.random()
+    if r < 0.4:
+        root, base = Obj(list(bodies[0].kvs)), uris[0]
+    elif r < 0.6:
+        root, base = Obj(list(bodies[0].kvs)), ""
+        if root.get("$id") is None:
+            root.kvs.insert(0, ("$id", uris[0]))
+    else:
+        root, base = Obj([("properties", Obj([("next", Obj([("$ref", uris[0])]))]))]), rng.choice(["http://x.test/app.json", pre + "root.json", ""])
+    insts = []
+    for i in range(k):
+        inner = Obj([("m%d" % i, "doc%d" % rng.randrange(k))])
+        insts += [inner, Obj([("next", inner)]), Obj([("next", Obj([("next", inner)]))]), [inner], Obj([("zz", inner)])]
+    rng.shuffle(insts)
+    args = {"schema": root, "docs": docs, "base": base, "loader": True, "insts": insts[:6], "maxLoads": 8 * k + 16}
+    return args, {"universe": True, "userinfo": True, "ndocs": k, "shape": shape}
